@@ -27,7 +27,7 @@ def val(rng, scale=1.0):
 
 def bushy_relax(n):
     """the relaxation parameter for which the star blocks of matrix(rng, "bushy", n) are exactly the relaxed supernodes"""
-    return 3 + max(1, n) % 4
+    return 3 + max(1, n) % 3
 
 
 def matrix(rng, kind, n):
@@ -70,32 +70,31 @@ def matrix(rng, kind, n):
                     if 0 <= xx < k and 0 <= yy < k:
                         ent[(xx * k + yy, j)] = -1.0 + 0.1 * rng.random()
     elif kind == "bushy":
-        # units = a star block (s-1 independent leaf columns + a hub: ONE relaxed supernode with several leaves when relax >= s)
-        # followed by a stem of 1-2 columns whose only child is the hub (so the stem panel is pipelined with the busy supernode)
-        # and which has nonzeros in the pivot rows of leaf columns that are NOT on the etree path from the first leaf
+        # units = s-1 independent leaf columns + a hub (with relax = s ONE relaxed supernode whose columns do not form a path in
+        # the etree) + a stem (chain) above the hub, whose first panel is pipelined with the busy supernode and has nonzeros in the
+        # pivot rows of leaves that are NOT on the etree path first leaf -> hub.  The leaves must not share a row (they would be
+        # chained in the column etree): leaf i has rows {i, stem_i}, the hub column has the rows of all leaves.
         o = 0
-        s_ = 3 + n % 4                  # the same star size in every unit: use relax = s_ (see bushy_relax)
+        s_ = 3 + n % 3                  # the same star size in every unit: use relax = s_ (see bushy_relax)
         while o < n:
-            st = rng.randint(1, 2)
+            st = s_ - 1 + rng.randint(0, 1)
             if o + s_ + st > n and o > 0:
                 break
             hub = o + s_ - 1
             for j in range(o, o + s_ + st):
                 ent[(j, j)] = val(rng) * 3
-            for l in range(o, hub):
-                ent[(hub, l)] = val(rng)
-                if rng.random() < 0.5:
-                    ent[(l, hub)] = val(rng)
+            for k, l in enumerate(range(o, hub)):
+                ent[(l, hub)] = val(rng)                  # hub adjacent to every leaf through the leaf's own row
+                ent[(hub + 1 + k, l)] = val(rng)          # a later row of its own for every leaf
             for t in range(hub + 1, hub + 1 + st):
-                ent[(t - 1, t)] = val(rng); ent[(t, t - 1)] = val(rng)
+                ent[(t - 1, t)] = val(rng)
+                if rng.random() < 0.5:
+                    ent[(t, t - 1)] = val(rng)
                 for l in range(o + 1, hub):           # off-path leaves
                     if rng.random() < 0.8:
                         ent[(l, t)] = val(rng)
             o += s_ + st
         n = o
-        for j in range(n):                       # a light coupling at the end keeps the forest connected now and then
-            if rng.random() < 0.15:
-                ent[(n - 1, j)] = val(rng)
     elif kind == "blockdiag":
         j = 0
         while j < n:
